@@ -105,6 +105,34 @@ CLAIMS = {
         note=TRUST + "assumption A-addr (slice addresses < 2^63); user helpers outside the claim; non-termination allowed.",
         technique="MIR abstract interpretation (panic inventory) + THIR symbolic summaries, assume-guarantee rows",
         design="5/C05"),
+    "C07": dict(
+        category="proof",
+        text="From the symbolic summaries of the interpreter's local-call and exit arms: save set == restore set (r6..r9, return pc), "
+             "same frame index after increment/decrement, inverse r10 adjustment by the same frame's usage, depth guard before the "
+             "frame write with bound == array length, return pc == pc+1 and callee pc == pc+1+sext(imm), no write to r0-r5; the "
+             "local-call discriminator (opc == CALL && src == 1) agrees in verifier, interpreter, JIT and stack-usage pass; JIT native "
+             "call template pushes/pops mirror. F19 (JIT does not lower the frame pointer) is a recorded known finding.",
+        note=TRUST + "stack-slot non-aliasing under the JIT does NOT hold (F19); JIT behaviour past depth 8 is outside its documented "
+             "guarantees; arbitrary calculators only enter through usage(frame).",
+        technique="THIR symbolic summaries of the call/exit arms with mirror rules; x86 template decoding",
+        design="5/C07"),
+    "C08": dict(
+        category="proof",
+        text="Per engine, from the call arm's summary: key imm as u32, arguments (r1..r5) in order, result in r0, one call per path, "
+             "unknown id -> Err (run time / compile time), r6-r10 and the JIT's packet base preserved; x86 stack parity: prologue "
+             "delta, per-local-call delta (0 mod 16) and call-site pushes give rsp = 0 (mod 16) at `call rax` at every depth.",
+        note=TRUST + "SysV AMD64 ABI facts (argument registers, callee-saved set) are the reference; Cranelift's own ABI lowering trusted.",
+        technique="THIR symbolic summaries + x86 byte-template decoding with stack-depth accounting + Cranelift IR replay",
+        design="5/C08"),
+    "C09": dict(
+        category="proof",
+        text="JIT prologue/epilogue templates for the three wrapper flag configurations are decoded and run from the SysV entry state: "
+             "r1 source, r10 = top of a 512-byte area, packet base register, the two fixed-mbuff pointer stores (parametric in the "
+             "offsets), epilogue mirrors prologue; wrappers' flags, null-for-empty-packet and argument order; buffer-length closure == "
+             "max(x,y)+8; interpreter/Cranelift wrappers' little-endian pointer writes; Cranelift prelude region variables and r1 select.",
+        note=TRUST + "interpreter r1/r10 initialisation is checked under C01/R01.f; overlapping offsets excluded by the statement.",
+        technique="x86 byte-template decoding of the JIT prologue + structural rules over wrapper THIR + Cranelift prelude replay",
+        design="5/C09"),
     "C10": dict(
         category="proof",
         text="Per-method path rules over symbolic summaries of the VM API methods: failure atomicity of set_program/set_verifier, "
